@@ -102,7 +102,7 @@ public:
         default: break;
         }
         // a note held across the loop end (never released inside the body)
-        bool heldNote = false; uint8_t heldCh = 3, heldKey = 77;
+        bool heldNote = false; uint8_t heldCh = 3, heldKey = 118;   /* outside the generator's key range 12..110: its tag cannot collide with a generated note */
         if(li.valid && li.le > li.ls + 1 && sr.chance(0.6)) { SEvent e; e.tick = li.le - 1; e.status = 0x90; e.ch = heldCh; e.d1 = heldKey; e.d2 = 99; insertAt(song.tracks[0], e); heldNote = true; }
         // effective end of the song in ticks: an End-of-Track alone at its tick is pulled back to the preceding event
         uint32_t songEnd = 0; for(size_t tk = 0; tk < song.tracks.size(); ++tk) songEnd = std::max(songEnd, song.tracks[tk].ev.empty() ? 0u : song.tracks[tk].ev.back().tick);
